@@ -184,6 +184,12 @@ def gen(rng, tier):
             for anchor in (None, 0, n):
                 nd, alpha = make_needle(rng, n, None, rng.randrange(6))
                 out.append(case(anchor, nd, haystacks(rng, nd, alpha, None, tier)))
+    # needle lengths far beyond the table of specialised sizes, around powers of two
+    for n in (31, 32, 33, 48, 63, 64, 65, 100, 127, 128, 129, 255, 256, 257):
+        for k in range(2 if tier == "thorough" else 1):
+            anchor = rng.choice([None, None, 1, n // 2, n - 1])
+            nd, alpha = make_needle(rng, n, anchor, rng.choice([0, 1, 3, 4, 5]))
+            out.append(case(anchor, nd, haystacks(rng, nd, alpha, anchor, "quick")))
     out += sibling_families(rng, tier)
     return out
 
